@@ -25,6 +25,7 @@
 import logging
 import os
 import select
+import threading
 
 from vlib import sched as S
 from vlib.core import HarnessError
@@ -65,6 +66,10 @@ class FakeTransport:
         self.default_max_packet_size = 2 ** 15
         self.default_window_size = 2 ** 21
         self.saved_exception = None
+        # the fake transport is never in a key exchange: the two public-ish flags a channel may consult say so
+        self.clear_to_send = threading.Event()
+        self.clear_to_send.set()
+        self.in_kex = False
         self._T = Transport
 
     # -- what Channel calls ---------------------------------------------------------
@@ -86,7 +91,9 @@ class FakeTransport:
     def _unlink_channel(self, chanid):
         return self._T._unlink_channel(self, chanid)
 
-    def _send_user_message(self, m):
+    def _send_user_message(self, m, *_args, **_kwargs):
+        # extra arguments (e.g. a timeout bounding the wait for a key exchange) are accepted and ignored: the fake
+        # transport is never in a key exchange, and a signature the bench does not know must not become a harness error
         raw = m.asbytes()
         ptype = raw[0]
         self.sched.yield_point(("send", NAMES.get(ptype, ptype)))
